@@ -1,3 +1,24 @@
+/-
+C07 — "no input can crash or hang a parser", on the source text: `ParseISO8601Duration` as TRANSLATED
+from /repo/time/time.go on this run (`KitModel/Generated/CodeC07.lean`, written by
+`harness/cmd/go2lean`), with its two loop functions.
+
+For EVERY `atoi` (the `strconv.Atoi` parameter), every string `from_` and every fuel:
+  * `parseISO_code_never_panics` — no `.panic` when `len(from) < 2^63 - 1`; every index `from[i]`
+    and slice `from[1:i]`, `from[start:i]` is in bounds. At exactly `len(from) = 2^63 - 1` the
+    statement is FALSE (`i++` after the repetition count wraps): `parseISO_code_panics_at_maxInt`,
+    `parseISO_code_never_panics_le_false`.
+  * `parseISO_code_terminates` — `len(from)` units of fuel suffice (one per loop iteration), and
+    that bound is the least one: `parseISO_code_fuel_tight`.
+  * `parseISO_code_total` — hence the result is `.ok _`.
+  * `parseISO_code_spec` — all of it in one statement.
+With `atoi` the model's Atoi (`atoiGo`):
+  * `parseISO_code_eq_model` — the returned value, read through `readRes`, is exactly the
+    hand-written model's `Kit.NoPanic.Time.parseISO8601 from_`.
+
+Trusted here: the translator and `KitModel/Go/Sem.lean` (Go's int64 wrap-around, strings as byte
+lists, `errors.New(..)` as the sentinel "errors.New").
+-/
 import KitModel.Generated.CodeC07
 import KitModel.NoPanicTime
 import KitProofs.Lemmas.NoPanicTime
@@ -559,6 +580,21 @@ def Rel1 (rep : Int) : Outcome St → Res (LoopOut R6 S9) → Prop
   | .err e, r => e = badMsg ∧ ∃ y m d du, r = .ok (.ret (y, m, d, du, rep, some "errors.New"))
   | .panic _, _ => False
 
+theorem Rel1_ite {rep : Int} {c : Prop} [Decidable c] {a b : Outcome St} {f : St → Outcome St}
+    {x y : Res (LoopOut R6 S9)}
+    (h1 : c → Rel1 rep (a.bind f) x) (h2 : ¬ c → Rel1 rep (b.bind f) y) :
+    Rel1 rep ((if c then a else b).bind f) (if c then x else y) := by
+  by_cases h : c
+  · rw [if_pos h, if_pos h]; exact h1 h
+  · rw [if_neg h, if_neg h]; exact h2 h
+
+theorem Rel1_bad {rep : Int} {f : St → Outcome St} {y m d du : Int} :
+    Rel1 rep ((bad : Outcome St).bind f) (.ok (.ret (y, m, d, du, rep, some "errors.New"))) :=
+  And.intro rfl ⟨y, m, d, du, rfl⟩
+
+theorem Rel1_ok {rep : Int} {f : St → Outcome St} {st' : St} {x : Res (LoopOut R6 S9)}
+    (h : Rel1 rep (f st') x) : Rel1 rep ((Outcome.ok st').bind f) x := h
+
 theorem loop1_eq_isoLoop (s : List UInt8) (hl : lenI s ≤ 9223372036854775807) (rep : Int) :
     ∀ (cf mf i : Nat) (st : St) (ii ss tmp : Int), ii = (i : Int) → ss = (st.start : Int) →
       st.start ≤ i → i ≤ s.length → s.length - i < cf → s.length - i ≤ mf →
@@ -591,9 +627,146 @@ theorem loop1_eq_isoLoop (s : List UInt8) (hl : lenI s ≤ 9223372036854775807) 
         unfold isoStep numField
         simp only [idx_ok hlt, bind_ok, slice_ok h1 (Nat.le_of_lt hlt), wrap64_eq, hourNs, minuteNs, secondNs]
         generalize s[i] = c
-        trace_state
-        sorry
-    · sorry
+        generalize List.take (i - start) (List.drop start s) = sub
+        have next : ∀ (st' : St) (ss t : Int), ss = (st'.start : Int) → st'.start ≤ i + 1 →
+            Rel1 rep (isoLoop s mf' (i + 1) st')
+              (ParseISO8601Duration_loop1 n atoiGo s st'.years st'.months st'.days st'.dur rep none (lenI s)
+                ((i : Int) + 1) ss st'.inTime t) := by
+          intro st' ss t e1 e2
+          exact ih mf' (i + 1) st' _ ss t (by omega) e1 e2 (by omega) (by omega) (by omega)
+        cases hA : atoi sub with
+        | none =>
+          have hsnd : ((atoiGo sub).snd != none) = true := by simp [atoiGo, hA]
+          simp only [hsnd, ↓reduceIte]
+          cases inTime <;> (try simp only [Bool.false_eq_true, ↓reduceIte]) <;>
+          repeat' first
+            | exact Rel1_bad
+            | refine Rel1_ite (fun _ => ?_) (fun _ => ?_)
+            | exact Rel1_ok (next _ _ _ (by dsimp only <;> omega) (by dsimp only <;> omega))
+        | some v =>
+          have hsnd : ((atoiGo sub).snd != none) = false := by simp [atoiGo, hA]
+          have hsnd' : (atoiGo sub).snd = none := by simp [atoiGo, hA]
+          have hfst : (atoiGo sub).fst = v := by simp [atoiGo, hA]
+          simp only [hsnd, Bool.false_eq_true, ↓reduceIte]
+          simp only [hsnd', hfst]
+          cases inTime <;> (try simp only [Bool.false_eq_true, ↓reduceIte]) <;>
+          repeat' first
+            | exact Rel1_bad
+            | refine Rel1_ite (fun _ => ?_) (fun _ => ?_)
+            | exact Rel1_ok (next _ _ _ (by dsimp only <;> omega) (by dsimp only <;> omega))
+    · have hlt' : decide ((i : Int) < lenI s) = false := by rw [hlen]; simp; omega
+      simp only [hlt', Bool.false_eq_true, ↓reduceIte]
+      have hm : isoLoop s mf i { start := start, inTime := inTime, years := years, months := months, days := days, dur := dur }
+          = .ok { start := start, inTime := inTime, years := years, months := months, days := days, dur := dur } := by
+        cases mf <;> (unfold isoLoop; simp only [hlt, ↓reduceIte])
+      rw [hm]
+      exact ⟨_, _, _, _, rfl⟩
+
+/-- The translated function's result read as the model's outcome: `err == nil` is a parsed value,
+the `errors.New(...)` value is the model's format error (nothing else occurs). -/
+def readRes : R6 → Outcome IsoRes
+  | (y, m, d, du, rep, none) => .ok { years := y, months := m, days := d, dur := du, rep := rep }
+  | (_, _, _, _, _, some e) => if e = "errors.New" then bad else .panic "unexpected error value"
+
+theorem body_eq_isoBody (s : List UInt8) (hl : lenI s ≤ 9223372036854775807) (rep : Int) (cf i : Nat)
+    (hi : i < s.length) (hf : s.length - i ≤ cf) :
+    ∃ v, body cf atoiGo s rep none (i : Int) = .ok v ∧ readRes v = isoBody s i rep := by
+  have hlen : lenI s = ((s.length : Nat) : Int) := rfl
+  unfold body isoBody
+  have hw : wrapI64 ((i : Int) + 1) = (i : Int) + 1 := wrapI64_of_in (by unfold InI64; rw [hlen] at hl; omega)
+  have hidx : decide (0 ≤ (i : Int) ∧ (i : Int) < lenI s) = true := by rw [hlen]; simp; omega
+  simp only [hw, hidx, idx_cast s i hi, idx_ok hi, bind_ok, Bool.not_true, Bool.false_eq_true, ↓reduceIte]
+  by_cases hc : (s[i] != 80) = true
+  · simp only [hc, ↓reduceIte]
+    exact ⟨_, rfl, rfl⟩
+  · simp only [hc, Bool.false_eq_true, ↓reduceIte]
+    have := loop1_eq_isoLoop s hl rep cf s.length (i + 1)
+      { start := i + 1, inTime := false, years := 0, months := 0, days := 0, dur := 0 } ((i : Int) + 1) ((i : Int) + 1) 0
+      (by omega) (by dsimp only; omega) (Nat.le_refl _) (by omega) (by omega) (by omega)
+    revert this
+    dsimp only
+    generalize isoLoop s s.length (i + 1) _ = mo
+    generalize ParseISO8601Duration_loop1 cf atoiGo s 0 0 0 0 rep none (lenI s) ((i : Int) + 1) ((i : Int) + 1) false 0 = co
+    intro h
+    match mo, h with
+    | .ok st', h =>
+      obtain ⟨i', s', p', t', h⟩ := h
+      subst h
+      exact ⟨_, rfl, rfl⟩
+    | .err e, h =>
+      obtain ⟨he, y, m, d, du, h⟩ := h
+      subst h he
+      exact ⟨_, rfl, rfl⟩
+
+/-- **3: the model is the code.** With `strconv.Atoi` read as the model's `atoi` (`atoiGo`), on every
+string shorter than 2^63 - 1 bytes and with `len(from)` fuel, the translated
+`ParseISO8601Duration` returns a value, and that value read through `readRes` is exactly the
+hand-written model's `parseISO8601 from` — same parsed fields, same repetition count, error exactly
+when the model reports its format error. The theorems about `Kit.NoPanic.Time.parseISO8601` are
+thereby theorems about the translated source text. -/
+theorem parseISO_code_eq_model (fuel : Nat) (from_ : List UInt8)
+    (hl : (from_.length : Int) < 9223372036854775807) (hf : from_.length ≤ fuel) :
+    ∃ v, ParseISO8601Duration fuel atoiGo from_ = .ok v ∧ readRes v = parseISO8601 from_ := by
+  rw [parseISO_code_unfold]
+  unfold parseISO8601
+  have hlen : lenI from_ = ((from_.length : Nat) : Int) := rfl
+  have hl' : lenI from_ ≤ 9223372036854775807 := by rw [hlen]; omega
+  by_cases h2 : from_.length < 2
+  · have h2' : decide (lenI from_ < 2) = true := by rw [hlen]; simp; omega
+    simp only [h2, h2', ↓reduceIte]
+    exact ⟨_, rfl, rfl⟩
+  · have h2' : decide (lenI from_ < 2) = false := by rw [hlen]; simp; omega
+    have h0 : 0 < from_.length := by omega
+    have hidx : decide (0 ≤ (0 : Int) ∧ (0 : Int) < lenI from_) = true := by rw [hlen]; simp; omega
+    have hi0 : GoSem.idx from_ 0 = from_[0] := idx_cast from_ 0 h0
+    simp only [h2, h2', hidx, hi0, idx_ok h0, bind_ok, Bool.not_true, Bool.false_eq_true, ↓reduceIte]
+    by_cases hR : (from_[0] == 82) = true
+    · simp only [hR, ↓reduceIte]
+      obtain ⟨j, hj, hj1, hj2, hc⟩ := loop2_eq_scanR atoiGo from_ hl' 0 0 0 0 (-1) none fuel from_.length 0 h0
+        (by omega) (by omega)
+      simp only [Int.natCast_zero] at hc
+      simp only [hj, hc, bind_ok]
+      unfold afterScan
+      have hw : wrapI64 ((j : Int) - 1) = (j : Int) - 1 := wrapI64_of_in (by unfold InI64; omega)
+      have hw2 : wrapI64 ((j : Int) + 1) = ((j + 1 : Nat) : Int) :=
+        (wrapI64_of_in (by unfold InI64; omega)).trans (by omega)
+      simp only [hw, hw2]
+      by_cases hj2' : j < 2
+      · have : decide ((j : Int) - 1 < 1) = true := by simp; omega
+        simp only [this, hj2', ↓reduceIte]
+        exact ⟨_, rfl, rfl⟩
+      · have : decide ((j : Int) - 1 < 1) = false := by simp; omega
+        have hsl : decide (0 ≤ (1 : Int) ∧ (1 : Int) ≤ (j : Int) ∧ (j : Int) ≤ lenI from_) = true := by
+          rw [hlen]; simp; omega
+        have hsc : GoSem.slice from_ (1 : Int) (j : Int) = (from_.drop 1).take (j - 1) := slice_cast from_ 1 j
+        simp only [this, hj2', hsl, hsc, slice_ok (show 1 ≤ j by omega) hj2, bind_ok, Bool.not_true,
+          Bool.false_eq_true, ↓reduceIte]
+        generalize List.take (j - 1) (List.drop 1 from_) = sub
+        cases hA : atoi sub with
+        | none =>
+          have hsnd : ((atoiGo sub).snd != none) = true := by simp [atoiGo, hA]
+          simp only [hsnd, ↓reduceIte]
+          exact ⟨_, rfl, rfl⟩
+        | some r =>
+          have hsnd : ((atoiGo sub).snd != none) = false := by simp [atoiGo, hA]
+          have hsnd' : (atoiGo sub).snd = none := by simp [atoiGo, hA]
+          have hfst : (atoiGo sub).fst = r := by simp [atoiGo, hA]
+          simp only [hsnd, Bool.false_eq_true, ↓reduceIte]
+          simp only [hsnd', hfst]
+          by_cases hge : j + 1 ≥ from_.length
+          · have : decide (((j + 1 : Nat) : Int) ≥ lenI from_) = true := by rw [hlen]; simp; omega
+            simp only [this, hge, ↓reduceIte]
+            exact ⟨_, rfl, rfl⟩
+          · have : decide (((j + 1 : Nat) : Int) ≥ lenI from_) = false := by rw [hlen]; simp; omega
+            simp only [this, hge, Bool.false_eq_true, ↓reduceIte]
+            exact body_eq_isoBody from_ hl' r fuel (j + 1) (by omega) (by omega)
+    · simp only [hR, Bool.false_eq_true, ↓reduceIte]
+      exact body_eq_isoBody from_ hl' (-1) fuel 0 h0 (by omega)
+
+/-- Non-vacuity of `parseISO_code_eq_model`: both sides evaluated on "R5/P1Y2M3DT4H5M6S" and on a
+malformed input. -/
+example : readRes (1, 2, 3, 14706000000000, 5, none) = parseISO8601 sample := by decide +kernel
+example : readRes (1, 0, 0, 0, -1, some "errors.New") = parseISO8601 [80, 49, 89, 84, 50, 89] := by decide +kernel
 
 end Model
 
